@@ -186,3 +186,21 @@ pub proof fn lemma_ext_from_trace<'a, A: MaybeNan, D: Dimension, F: FnMut(Option
         }
     }
 }
+
+// R16: `a <= b`, `a < b`, `a >= b`, `a > b` on references to an `Ord` type (std derives them from `cmp` for a lawful order - A-ORD)
+#[verifier::external_body]
+pub fn verif_ref_le<T: Ord>(a: &T, b: &T) -> (r: bool)
+    ensures r == ((*a).cmp_spec(b) != Ordering::Greater)
+{ unimplemented!() }
+#[verifier::external_body]
+pub fn verif_ref_lt<T: Ord>(a: &T, b: &T) -> (r: bool)
+    ensures r == ((*a).cmp_spec(b) == Ordering::Less)
+{ unimplemented!() }
+#[verifier::external_body]
+pub fn verif_ref_ge<T: Ord>(a: &T, b: &T) -> (r: bool)
+    ensures r == ((*a).cmp_spec(b) != Ordering::Less)
+{ unimplemented!() }
+#[verifier::external_body]
+pub fn verif_ref_gt<T: Ord>(a: &T, b: &T) -> (r: bool)
+    ensures r == ((*a).cmp_spec(b) == Ordering::Greater)
+{ unimplemented!() }
